@@ -33,7 +33,7 @@ OBLIGATIONS = ["NiftyVerif.C30." + t for t in (
     "interp_monotone", "interp_strictMono", "interp_nodes", "interp_between", "interp_range",
     "invgamma_monotone_and_step_error", "inverse_roundtrip_interp", "inverse_roundtrip_invgamma",
     "interpolator_grid_covers", "invgamma_exact_at_nodes", "strictMono_tabulated_cl", "quantile_tabulated_cl",
-    "invgamma_cl_jacobian", "pushforward_cdf", "invgamma_prior_spec", "interpolator_grid_num_covers")]
+    "invgamma_cl_jacobian", "pushforward_cdf", "invgamma_prior_spec", "interpolator_grid_num_covers", "classic_eq_jax")]
 RULE = ("case = (family, parameters, implementations, sorted standard-normal points x = Phi^-1(p) with p in [1e-12, 1-1e-12], "
         "log-uniform in min(p,1-p), both tails); parameters log-uniform over the documented ranges; non-trivial = points in "
         "both tails and non-default parameters; distinct by canonical JSON of the case. Separate streams: exact dyadic tables "
@@ -154,11 +154,15 @@ def gen_case(rng, fam, npts, k=None):
         impls = ["cl.op"]
     else:
         raise KeyError(fam)
-    x = gen_points(rng, npts)
     if fam in TABLE_FAMS:          # two points exactly on table nodes: no interpolation error allowed there
         grid = np.arange(I.TABLE_XMIN, I.TABLE_XMAX, par["step"])
         grid = grid[np.abs(grid) < 7.0]
-        x = sorted(set(x) | {float(grid[rng.randrange(len(grid))]) for _ in range(2)})
+        xs = set(gen_points(rng, max(npts - 2, 1)))
+        while len(xs) < npts:      # always exactly `npts` points: few distinct array shapes, few XLA compilations
+            xs.add(float(grid[rng.randrange(len(grid))]))
+        x = sorted(xs)
+    else:
+        x = gen_points(rng, npts)
     return dict(op="transform", fam=fam, par=par, impls=impls, x=x)
 
 
@@ -517,22 +521,32 @@ def oracle_interp(case):
     return None
 
 
+INTERP_GRIDS = [(-2.0, 2.0, 0.125), (-5.25, 3.75, 0.0625), (-7.0, 4.5, 0.015625), (-1.5, 8.75, 0.03125), (-8.25, 8.25, 0.0625),
+                (-3.25, 3.5, 0.25)]
+INTERP_NUMS = [(-2.0, 2.0, 17), (-3.25, 3.5, 3), (-1.0, 7.0, 33), (-8.0, 8.0, 9), (0.5, 1.5, 2)]
+
+
 def gen_interp_case(rng, k):
-    ex = rng.choice([3, 4, 5, 6])
-    step = 2.0 ** -ex
-    xmin = -rng.randrange(1, 9) - rng.choice([0, 0.5, 0.25])
-    xmax = rng.randrange(1, 9) + rng.choice([0, 0.5, 0.75])
+    """dyadic table request for `interpolator`; grids come from a small menu (few distinct array shapes), the tabulated
+    values, the queries and the log-space option vary"""
     inc = [rng.choice([0.25, 0.5, 1.0, 2.0, 4.0]) for _ in range(rng.randrange(3, 9))]
-    case = dict(op="interp", xmin=xmin, xmax=xmax, inc=inc, y0=rng.choice([0.5, 1.0, 8.0]), log=(k % 4 == 3))
+    case = dict(op="interp", inc=inc, y0=rng.choice([0.5, 1.0, 8.0]), log=(k % 4 == 3))
     if k % 3 == 2:
-        case["num"] = rng.choice([2, 3, 5, 9, 17, 33])
-        case["step"] = None
+        xmin, xmax, num = INTERP_NUMS[(k // 3) % len(INTERP_NUMS)]
+        case.update(xmin=xmin, xmax=xmax, num=num, step=None)
+        step = (xmax - xmin) / (num - 1)
     else:
-        case["step"] = step
+        xmin, xmax, step = INTERP_GRIDS[(k // 3) % len(INTERP_GRIDS)]
+        case.update(xmin=xmin, xmax=xmax, step=step)
     lo, hi = xmin - 1, xmax + 1
-    xq = sorted({round(rng.uniform(lo, hi) * 1024) / 1024 for _ in range(12)} | {xmin, xmax, xmin + step, 0.0})
-    case["xq"] = xq
-    case["yq"] = sorted({rng.randrange(0, 4096) / 16 for _ in range(8)} | {case["y0"] + inc[0]})
+    xq = {xmin, xmax, xmin + step, xmax - step / 2}
+    while len(xq) < 16:
+        xq.add(round(rng.uniform(lo, hi) * 1024) / 1024)
+    case["xq"] = sorted(xq)
+    yq = {case["y0"] + inc[0]}
+    while len(yq) < 9:
+        yq.add(rng.randrange(0, 4096) / 16)
+    case["yq"] = sorted(yq)
     return case
 
 
@@ -682,6 +696,11 @@ def corr_transform(co, case, ev):
             continue
         x, y = res["x"], res["y"]
         c1 = dict(mini, impls=[impl])
+        if impl.startswith("re.") and fam in ("uniform", "laplace"):
+            _, jnp = I._jax()
+            from jax.scipy.stats import norm as jnorm
+            xj = jnp.asarray(x)
+            Pj, LPj, LMj = np.asarray(jnorm.cdf(xj)), np.asarray(jnorm.logcdf(xj)), np.asarray(jnorm.logcdf(-xj))
         for i in range(len(x)):
             xi, yi = float(x[i]), float(y[i])
             ci = dict(c1, x=[xi])
@@ -706,9 +725,7 @@ def corr_transform(co, case, ev):
                            lambda o, ci=ci, xv=xv, tolx=tolx: co.close(ci, xv, num(o, "y"), tolx, "lognormalInvPriorRe: model vs re.func"))
             elif fam == "uniform":
                 if impl.startswith("re."):
-                    I._jax()
-                    from jax.scipy.stats import norm as jnorm
-                    P = float(jnorm.cdf(xi))
+                    P = float(Pj[i])
                     tol = RTOL * (abs(par["a"]) + abs(par["b"] - par["a"]))
                     line = dict(op="uniformPriorDefault", Phi=frac(P)) if par.get("default") else \
                         dict(op="uniformPriorRe", a=frac(par["a"]), b=frac(par["b"]), Phi=frac(P))
@@ -728,9 +745,7 @@ def corr_transform(co, case, ev):
                                                            "uniformClInv: Phi^-1(model argument) vs cl.op.inverse"))
             elif fam == "laplace":
                 if impl.startswith("re."):
-                    I._jax()
-                    from jax.scipy.stats import norm as jnorm
-                    lp, lmn = float(jnorm.logcdf(xi)), float(jnorm.logcdf(-xi))
+                    lp, lmn = float(LPj[i]), float(LMj[i])
                     tol = RTOL * (abs(yi) + par["scale"])
                     co.add(dict(op="laplaceRe", alpha=frac(par["scale"]), x=frac(xi), logPhi=frac(lp), logPhiNeg=frac(lmn)),
                            lambda o, ci=ci, yi=yi, tol=tol, impl=impl: co.close(ci, yi, num(o, "y"), tol, "laplaceRe: model vs " + impl))
@@ -941,21 +956,23 @@ def run(ctx):
     for c in corpus_cases():
         ctx.stat("corpus")
         cases.append(c)
-    per_fam = ctx.n(4, 64)
+    per_fam = ctx.n(4, 48)
     npts = ctx.n(14, 40)
     ship = 0
     for fam in FAMS:
         for k in range(per_fam):
             c = gen_case(ctx.rng, fam, npts, k)
+            if ctx.quick and k % 2 == 1:     # quick tier: the compiled / array-parameter variants on every second case
+                c["impls"] = [i for i in c["impls"] if i not in ("re.jit", "re.array", "cl.vecpar")]
             if fam == "invgamma" and "re.func" in c["impls"] and ship < ctx.n(3, 16):
                 c["ship_table"] = True
                 ship += 1
             cases.append(c)
-    for k in range(ctx.n(8, 300)):
+    for k in range(ctx.n(8, 200)):
         m = _lu(ctx.rng, 1e-3, 1e3)
         cases.append(dict(op="moments", mean=m, std=m * _lu(ctx.rng, 1e-3, 1e2)))
     cases += [dict(op="moments", mean=-1.0, std=1.0), dict(op="moments", mean=1.0, std=0.0), dict(op="moments", mean=0.0, std=-2.0)]
-    for k in range(ctx.n(12, 200)):
+    for k in range(ctx.n(9, 120)):
         cases.append(gen_interp_case(ctx.rng, k))
     for mcase in MALFORMED:
         cases.append(dict(op="malformed", **mcase))
